@@ -64,3 +64,42 @@ def run_tls_sample(job):
                                  implicit=(dec["ver"] in (0x0300, 0x0301) and dec["sobj"].mode == "CBC"), client=fl["client"], server=fl["server"],
                                  complete=("incomplete" not in f)))
     return out
+
+
+def quic_groups_match(got, exp):
+    """got: [(dir, payload)] exported; exp: [(dir, stream, ts)] from the independent decryptor, in capture order.
+    Datagrams are told apart by their capture timestamps (to microsecond resolution): an exported datagram must be the
+    concatenation of k >= 1 consecutive reference datagrams of one direction whose capture times lie within one microsecond."""
+    from fractions import Fraction
+    i = 0
+    for d, pl in got:
+        if i >= len(exp) or exp[i][0] != d:
+            return False
+        acc, t0 = exp[i][1], exp[i][2]
+        i += 1
+        while acc != pl and len(acc) < len(pl) and i < len(exp) and exp[i][0] == d and abs(exp[i][2] - t0) < Fraction(1, 10 ** 6):
+            acc += exp[i][1]
+            i += 1
+        if acc != pl:
+            return False
+    return i == len(exp)
+
+
+def run_quic_sample(job):
+    from wire import quicdec
+    f, klf = job
+    data, text = open(f, "rb").read(), open(klf).read()
+    truth = quicdec.decrypt_capture(data, text)
+    res = runner.run_inproc(data, text, opts=["-g"])          # the samples' clients grease the QUIC bit (RFC 9287): -g is needed to look at those packets
+    out = dict(file=os.path.relpath(f, REPO), keylog=os.path.basename(klf), crashed=res.crashed, exc=(res.exc or "")[-300:], bad=[], ndg=0)
+    if res.crashed or res.out is None:
+        return out
+    o = Observation(res.out)
+    out["bad"] += ["output malformed: " + p for p in o.problems[:2]]
+    for (cli, srv), exp in truth.items():
+        got = [(d, pl) for d, _t, pl, _a, _b in o.udp_dgrams(cli[0], cli[1], srv[0], srv[1])]
+        out["ndg"] += len(exp)
+        if not quic_groups_match(got, exp):
+            out["bad"].append(f"connection {cli[1]}->{srv[1]}: export ({len(got)} datagrams, {sum(len(p) for _d, p in got)} bytes) differs from the independent "
+                              f"decryption ({len(exp)} datagrams, {sum(len(s) for _d, s, _t in exp)} bytes)")
+    return out
